@@ -37,6 +37,12 @@ VARS = ["edge_node_connectivity", "face_edge_connectivity", "n_nodes_per_face", 
 GEO_CHEAP = ["node_x", "node_y", "node_z", "edge_lon", "edge_lat", "edge_x", "edge_y", "edge_z",
              "face_lon", "face_lat", "face_x", "face_y", "face_z", "edge_node_z", "edge_node_distances"]
 GEO_SLOW = ["face_areas"]
+# variables of the Lean state machine (codes of Driver.C09.varOf)
+SM_VARS = VARS + ["edge_face_distances"]
+# derived variables that are NOT per-element invariants of a restriction (they look at the neighbours of an element)
+NEIGHBOUR_GEO = ["edge_face_distances"]
+# every derived attribute a Grid can report (audit of Grid's properties); `bounds` is compared on small meshes only (slow)
+ALL_DERIVED = VARS + GEO_CHEAP + NEIGHBOUR_GEO + ["face_areas", "face_jacobian", "antimeridian_face_indices", "bounds"]
 ELEMENTS = {"nodes": "node", "face centers": "face", "edge centers": "edge"}
 MPAS = "test/meshfiles/mpas/QU/mesh.QU.1920km.151026.nc"
 
@@ -112,6 +118,40 @@ def ref_coords(g, element):
     return g.edge_lon.values, g.edge_lat.values
 
 
+def set_node_node(g):
+    """a user-supplied node_node_connectivity (public setter): the neighbours of each node along edges"""
+    import xarray as xr
+
+    t = np.asarray(g.face_node_connectivity.values)
+    nb = [[] for _ in range(int(g.n_node))]
+    for r in t:
+        f = [int(x) for x in r if x != INT_FILL]
+        for a, b in zip(f, f[1:] + f[:1]):
+            if b not in nb[a]:
+                nb[a].append(b)
+            if a not in nb[b]:
+                nb[b].append(a)
+    w = max(len(x) for x in nb)
+    arr = np.full((len(nb), w), INT_FILL, dtype=np.int64)
+    for i, x in enumerate(nb):
+        arr[i, : len(x)] = x
+    g.node_node_connectivity = xr.DataArray(arr, dims=["n_node", "n_max_node_nodes"])
+
+
+def values_of(x):
+    return np.asarray(x.values if hasattr(x, "values") else x)
+
+
+def same_values(a, b, lon=False):
+    if a.shape != b.shape:
+        return False
+    if a.dtype.kind in "iub" and b.dtype.kind in "iub":
+        return bool(np.array_equal(a, b))
+    if lon:
+        return bool(np.all(np.abs((a - b + 180.0) % 360.0 - 180.0) <= 1e-12))
+    return bool(np.allclose(a, b, rtol=1e-12, atol=1e-12, equal_nan=True))
+
+
 def make_index(sel):
     idx = sel["index"]
     form = sel.get("form", "list")
@@ -174,6 +214,9 @@ def judge(ctx, case):
     key = (case.get("file"), case.get("table"), bool(case.get("supplied")), tuple(case.get("history", [])),
            repr(sorted(sel.items())), case.get("via"), repr(case.get("data")))
     g = build_source(case, ux)
+    if case.get("node_node"):
+        set_node_node(g)
+        ctx.hit("source-has-node_node_connectivity")
     hist_done = []
     for v in case.get("history", []):
         try:
@@ -243,6 +286,10 @@ def judge(ctx, case):
             # nothing selected (the Grid accessor says so, the UxDataArray accessor fails inside isel on the empty
             # index list): whether an empty selection is right is decided below by CrossSpec on an empty face list
             res = None
+        elif case.get("node_node") and isinstance(e, KeyError):
+            fail("source-has-node_node_connectivity/raises=KeyError", "slicing a grid that carries a (user-set) node_node_connectivity raises "
+                 f"KeyError: {str(e)[:80]} (its rows list neighbours outside the subset; the node dictionary has no entry for them)")
+            return
         else:
             fail(f"{sel['kind']}/raises={type(e).__name__}/{src_kind}", f"selection {kind} raises {type(e).__name__}: {str(e)[:200]}")
             return
@@ -407,11 +454,18 @@ def judge(ctx, case):
              f" (materialised on the source before: {hist_done})", incobs, None, clauses)
         return
 
+    model_efd = None
+    if pre == "1":
+        # hypothesis of the Lean theorem efd_history_independent, decided by Lean on this case's tables
+        ht = d.ask("C09.efdtransport", w, enc_src(t, EN, FE), enc_ints(idx))
+        ctx.hit("EFDTransport-holds" if ht == "1" else "EFDTransport-" + ht)
+        if ht != "1":
+            ctx.mismatch("C09/EFDTransport(hypothesis of efd_history_independent fails on the model's own tables)", case, None, ht)
     # ---- the Lean state machine for this history reproduces every table ----
     if "file" not in case:
         sup = case.get("supplied")
-        hist_codes = [VARS.index(h) for h in hist_done if h in VARS]
-        order = [VARS.index(h) for h in case.get("order", [])]
+        hist_codes = [SM_VARS.index(h) for h in hist_done if h in SM_VARS]
+        order = [SM_VARS.index(h) for h in case.get("order", []) if h in SM_VARS]
         vw = d.ask("C09.view", w, enc_rows(t), 1 if sup else 0, enc_pairs(sup["EN"] if sup else []), enc_rows(sup["FE"] if sup else []),
                    enc_ints(hist_codes), 0, enc_ints(idx), enc_ints(order))
         if vw == "raises":
@@ -419,6 +473,7 @@ def judge(ctx, case):
         else:
             tk = common.Tok(vw.split(" ", 1)[1])
             mv = dict(EN=tk.pairs(), FE=tk.rows(), N=tk.ints(), NF=tk.rows(), EF=tk.pairs(), FF=tk.rows(), H=tk.ints())
+            model_efd = tk.pairs()  # per edge: the two subset faces the distance is between, (FILL, FILL) = 0
             iv = dict(EN=obs["EN"], FE=obs["FE"], N=obs["N"], NF=incobs["NF"], EF=incobs["EF"], FF=incobs["FF"], H=incobs["H"])
             okv = all(iv[k] == mv[k] for k in ("EN", "FE", "N", "EF", "H")) and msets(iv["NF"]) == msets(mv["NF"]) and \
                 msets(iv["FF"]) == msets(mv["FF"])
@@ -458,6 +513,77 @@ def judge(ctx, case):
             fail(f"geo/{attr}", f"{attr} of the subset differs from the source's restricted to the selection (history {hist_done})",
                  a, b, ["slice_functional"])
             return
+
+    # ---- quantities that look at an element's neighbours: judged on the subset's OWN incidence ----
+    try:
+        efd = np.asarray(sub.edge_face_distances.values, dtype=float)
+    except Exception as e:
+        fail(f"derived=edge_face_distances/raises={type(e).__name__}/{src_kind}",
+             f"edge_face_distances of the subset raises {type(e).__name__}: {str(e)[:160]}", dict(history=hist_done))
+        return
+    boundary = np.array([b == INT_FILL for _, b in incobs["EF"]])
+    if efd.shape != boundary.shape or np.any(efd[boundary] != 0.0):
+        fail("geo/edge_face_distances/boundary-edge-nonzero",
+             "edge_face_distances of the subset reports a distance for edges that have a single face in the subset"
+             f" (materialised on the source before: {[h for h in hist_done if h in ALL_DERIVED and h not in GEO_CHEAP]})",
+             dict(edge_face_distances=efd, boundary=boundary), None, ["slice_history_independent", "slice_functional"])
+        return
+    try:
+        pefd = np.asarray(g.edge_face_distances.values, dtype=float)[rec_e]
+        if np.any(~np.isclose(efd[~boundary], pefd[~boundary], rtol=1e-9, atol=1e-9)):
+            fail("geo/edge_face_distances/interior", "edge_face_distances of the subset differs from the source's on edges whose two faces "
+                 "are both in the subset", efd, pefd, ["slice_functional"])
+            return
+    except Exception:
+        ctx.hit("source-raises:edge_face_distances")
+    ctx.hit("geo:edge_face_distances(boundary=0, interior=source)")
+    if model_efd is not None and len(model_efd) == len(efd):
+        # the Lean state machine (for this history): which edges carry a distance, and between which subset faces
+        flon, flat = np.radians(sub.face_lon.values), np.radians(sub.face_lat.values)
+        want = np.zeros(len(efd))
+        stale = False
+        for k, (a, b) in enumerate(model_efd):
+            if a == INT_FILL:
+                continue
+            if a < 0 or b < 0:
+                stale = True
+                continue
+            cs = np.sin(flat[a]) * np.sin(flat[b]) + np.cos(flat[a]) * np.cos(flat[b]) * np.cos(flon[a] - flon[b])
+            want[k] = float(np.arccos(np.clip(cs, -1, 1)))
+        if stale or not np.allclose(efd, want, rtol=1e-7, atol=1e-7):
+            ctx.mismatch("C09/state-machine/edge_face_distances", case, efd, dict(model=model_efd, distances=want))
+        else:
+            ctx.hit("state-machine:edge_face_distances-identical")
+
+    # ---- history independence, attribute by attribute: the same selection on a FRESH parent ----
+    twin = case.get("twin") or []
+    if twin:
+        g2 = build_source(case, ux)
+        if case.get("node_node"):
+            set_node_node(g2)
+        try:
+            sub2 = apply_sel(g2, sel, False)
+        except Exception as e:
+            fail(f"history/selection-raises-on-fresh-parent={type(e).__name__}", f"the selection raises on a fresh parent only: {e}")
+            return
+        for attr in twin:
+            try:
+                b = values_of(getattr(sub2, attr))
+            except Exception:
+                ctx.hit(f"fresh-subset-raises:{attr}")
+                continue
+            try:
+                a = values_of(getattr(sub, attr))
+            except Exception as e:
+                fail(f"history/{attr}/raises={type(e).__name__}", f"{attr} of the subset raises only when the parent had materialised "
+                     f"{hist_done} before slicing: {str(e)[:120]}", None, None, ["slice_history_independent"])
+                return
+            if not same_values(a, b, lon=attr.endswith("lon")):
+                fail(f"history/{attr}", f"{attr} of the subset depends on what was materialised on the parent before slicing "
+                     f"({[h for h in hist_done]}): it differs from the same subset of a fresh parent", a, b,
+                     ["slice_history_independent"])
+                return
+        ctx.hit("twin-compared(%d attrs)" % min(len(twin), 30))
 
     # ---- data ----
     if is_da:
@@ -559,7 +685,8 @@ def random_case(ctx, m, ux, supplied=None, thorough_geo=False):
         supplied = rng.random() < 0.25
     if supplied:
         case["supplied"] = supplied_tables(rng, g0)
-    pool = [v for v in VARS if not (supplied and v in ("edge_node_connectivity", "face_edge_connectivity"))] + GEO_CHEAP
+    pool = [v for v in VARS if not (supplied and v in ("edge_node_connectivity", "face_edge_connectivity"))] + GEO_CHEAP \
+        + NEIGHBOUR_GEO + ["face_areas"] + (["bounds"] if m.n_face <= 12 and rng.random() < 0.25 else [])
     style = rng.choice(["none", "all", "random", "random", "one"])
     if style == "none":
         hist = []
@@ -573,10 +700,17 @@ def random_case(ctx, m, ux, supplied=None, thorough_geo=False):
         rng.shuffle(hist)
     case["history"] = hist
     case["sel"] = random_selection(rng, m, g0, int(g0.n_edge))
-    order = [v for v in VARS if rng.random() < 0.5]
+    order = [v for v in SM_VARS if rng.random() < 0.5]
     rng.shuffle(order)
     case["order"] = order
     case["geo"] = rng.sample(GEO_CHEAP, 5) + (GEO_SLOW if thorough_geo else [])
+    # which attributes of the subset are compared with the subset of a FRESH parent (history independence)
+    twin = [a for a in ALL_DERIVED if a != "bounds" and rng.random() < 0.6] + (["bounds"] if "bounds" in hist else [])
+    if "edge_face_distances" in hist and "edge_face_distances" not in twin:
+        twin.append("edge_face_distances")
+    case["twin"] = twin
+    if rng.random() < 0.1:
+        case["node_node"] = True  # the source carries a user-set node_node_connectivity
     if rng.random() < 0.5:
         case["via"] = "uxda"
         case["data"] = dict(centre=rng.choice(["face", "node", "edge"]), lead=[rng.randint(1, 3) for _ in range(rng.choice([0, 0, 1, 2]))],
